@@ -10,7 +10,7 @@ RULE = ("per registered scheme: seeded well-formed ranges (patterns accepted by 
         "over the operation alphabet {print+parse, permute+rebuild, simplify, validate, invert twice, parse with simplify and "
         "validate flags}; after EVERY step the membership vector of the real range over probes at, around and between all "
         "constraint versions is compared with the spec `denote` of the ORIGINAL range (Lean driver), and the canonical text must "
-        "stop changing after the first simplification; the constraint tuple after EVERY step is compared with the state of the Lean '
+        "stop changing after the first simplification; the constraint tuple after EVERY step is compared with the state of the Lean "
         "state machine `C17.run` (driver `hist`), which is what the theorems are about; non-trivial = walk of length >= 3 on a range of >= 2 constraints")
 ASSUMPTIONS = ["lawful operators per scheme (C02)", "well-formed start range; version texts without vers delimiters"]
 
